@@ -4,6 +4,7 @@ from itertools import takewhile
 from typing import Any, Dict, MutableMapping, Optional, Set, Type, Union
 
 import h5py
+import numpy as np
 import wrapt
 
 from ..util.types import H5DatasetLike, H5FileLike, H5GroupLike, H5NodeLike, OpenMode
@@ -379,6 +380,9 @@ class MetadorGroup(MetadorNode):
     def __setitem__(self, name, value):
         if any(map(lambda x: isinstance(value, x), _H5_REF_TYPES)):
             raise ValueError(f"Unsupported reference type: {type(value).__name__}")
+        if isinstance(value, (H5DatasetLike, H5GroupLike, h5py.Datatype, np.dtype)):
+            # would be a hard link to the node / a named datatype (like in IH5)
+            raise ValueError(f"Unsupported value type: {type(value).__name__}")
 
         return _wrap_method("__setitem__")(self, name, value)
 
